@@ -22,7 +22,7 @@ class ClassDecl:
         self.bases = list(bases)
         self.fields = dict(fields)
         self.abstract = abstract
-        self.views = dict(views)     # ghost field name -> spec function name computing it from concrete fields
+        self.views = dict(views)     # ghost (interface) field name -> concrete field of this class holding it     # ghost field name -> spec function name computing it from concrete fields
 
 
 class FuncDecl:
